@@ -62,11 +62,24 @@ class Recorder:
             "skops.io._quantile_forest", "skops.io.old._general_v0", "skops.io.old._numpy_v0", "skops.io.old._numpy_v1",
             "skops.io._audit", "skops.io._visualize", "skops.io._persist"]
 
+    BLOCK = None        # names whose objects are never handed out (general-purpose callables), loaded lazily
+
+    @classmethod
+    def blocked(cls):
+        if cls.BLOCK is None:
+            p = VERIF / "generated" / "trust.json"
+            names = set(json.loads(p.read_text())["dangerous"]) if p.exists() else set()
+            names |= {"os.system", "subprocess.Popen", "builtins.eval", "builtins.exec", "importlib.import_module", "os._exit",
+                      "sys.exit", "os.abort", "os.kill", "os.fork", "shutil.rmtree", "os.remove", "os.rmdir", "os.unlink"}
+            cls.BLOCK = names
+        return cls.BLOCK
+
     def __init__(self):
         self.events = []
         self.audit = []
         self.saved = []
         self.active = False
+        self.blocked_hits = []
 
     def __enter__(self):
         import importlib
@@ -77,13 +90,26 @@ class Recorder:
         real_gettype, real_import = U.gettype, U._import_obj
         rec = self
 
+        block = self.blocked()
+
+        class BlockedResolution(RuntimeError):
+            pass
+
+        def guard(module, name):
+            # safety net of the harness: the event is recorded, but a general-purpose callable is never handed out
+            if isinstance(module, str) and isinstance(name, str) and f"{module}.{name}" in block:
+                rec.blocked_hits.append(f"{module}.{name}")
+                raise BlockedResolution(f"verif harness refuses to resolve {module}.{name}")
+
         def gettype(module_name, cls_or_func):
             rec.events.append(("gettype", module_name, cls_or_func))
+            guard(module_name, cls_or_func)
             return real_gettype(module_name, cls_or_func)
 
         def _import_obj(module, cls_or_func, package=None):
             if not (rec.events and rec.events[-1] == ("gettype", module, cls_or_func)):
                 rec.events.append(("_import_obj", module, cls_or_func))
+            guard(module, cls_or_func)
             return real_import(module, cls_or_func, package=package)
 
         for mn in self.MODS:
@@ -273,4 +299,5 @@ def impl_load(data, T):
     out["audit"] = rec.audit
     out["new_modules"] = rec.new_modules
     out["ledger"] = list(L.LEDGER)
+    out["blocked"] = list(rec.blocked_hits)
     return out
